@@ -329,8 +329,12 @@ impl<'a> Gen<'a> {
                 let t = *t;
                 for _ in 0..(1 + self.rng.below(3)) {
                     let a = self.int_val(t); let b = self.int_val(t);
-                    let (lo, hi) = (a.min(b), a.max(b));
-                    let pat = match self.rng.below(3) { 0 => format!("{lo}{t}"), 1 if lo < hi => format!("{lo}{t}..={hi}{t}"), _ if lo < hi => format!("{lo}{t}..{hi}{t}"), _ => format!("{lo}{t}") };
+                    let (mut lo, hi) = (a.min(b), a.max(b));
+                    // ranges that start exactly at 0 (the sign boundary of signed types)
+                    if hi > 0 && self.rng.chance(1, 4) { lo = 0; }
+                    // non-negative literals are also written without a suffix (for a signed scrutinee these are "unsigned" patterns)
+                    let sfx = if lo >= 0 && self.rng.chance(1, 3) { "" } else { t };
+                    let pat = match self.rng.below(3) { 0 => format!("{lo}{sfx}"), 1 if lo < hi => format!("{lo}{sfx}..={hi}{sfx}"), _ if lo < hi => format!("{lo}{sfx}..{hi}{sfx}"), _ => format!("{lo}{sfx}") };
                     arms.push(format!("{pat} => {}", self.arm_body(ty, d, vec![])));
                 }
                 if self.rng.bool() { arms.push(format!("_ => {}", self.arm_body(ty, d, vec![]))); }
@@ -439,6 +443,37 @@ impl<'a> Gen<'a> {
                 let s = format!("let ({n1}, {n2}) = {e};");
                 self.declare(&n1, fs[0].clone(), false); if n2 != n1 { self.declare(&n2, fs[1].clone(), false); } else { self.declare(&n1, fs[1].clone(), false); }
                 s
+            }
+            3 if depth > 0 && self.rng.chance(1, 4) => { // for loop over the joined rows of two literal tables with strictly ascending keys
+                let kt = *self.rng.pick(&["u8", "u16"]);
+                let (ta, tb) = (self.scalar_ty(), self.scalar_ty());
+                let mut table = |g: &mut Self, vt: &Ty| -> String {
+                    let n = 1 + g.rng.below(3);
+                    let mut key = g.rng.below(3);
+                    let mut rows = vec![];
+                    for _ in 0..n {
+                        let mut v = g.expr(vt, d.min(1));
+                        for _ in 0..4 { if !v.contains("Sa {") { break; } v = g.expr(vt, 0); }
+                        rows.push(format!("({key}{kt}, {v})"));
+                        key += 1 + g.rng.below(2);
+                    }
+                    format!("[{}]", rows.join(", "))
+                };
+                let a = table(self, &ta);
+                let b = table(self, &tb);
+                if a.contains("Sa {") || b.contains("Sa {") { return "let zz_nojoin = true;".to_string(); }
+                let (k1, v1, k2, v2) = (self.fresh("k"), self.fresh("j"), self.fresh("k"), self.fresh("j"));
+                self.scopes.push(vec![]);
+                self.declare(&k1, Ty::Int(kt), false); self.declare(&v1, ta, false); self.declare(&k2, Ty::Int(kt), false); self.declare(&v2, tb, false);
+                let mut body = String::new();
+                let inner = format!("{indent}    ");
+                let cnt = 1 + self.rng.below(2);
+                self.stmts(cnt, d, &mut body, &inner);
+                if self.profile == Profile::Mutation {
+                    if let Some(v) = self.assignable().first().cloned() { if matches!(v.ty, Ty::Int(_) | Ty::Bool) { let e1 = self.expr(&v.ty, d); body += &format!("{inner}{} = {e1};\n", v.name); } }
+                }
+                self.scopes.pop();
+                format!("for (({k1}, {v1}), ({k2}, {v2})) in join_iter({a}, {b}) {{\n{body}{indent}}}")
             }
             3 if depth > 0 => { // for loop over an array value or a range
                 let et = self.scalar_ty();
